@@ -1,24 +1,57 @@
 (* Executable correspondence + monitors for the engine-run cases of C01 / C04 / C05.
    bit 0: the mechanism's acceptor rejects the observed log; bit 1: the property monitor does. *)
+From Coq Require Import NArith.
 From Verif Require Import Base.CaseCheck Multi.Trace Multi.Accept.
+
+(* Range form of an event log, for the LARGE-BATCH cases (one batch of thousands of records): a
+   run of consecutive events of one kind over consecutive emission indices is one entry (numbers
+   as N, never large nat literals in a case file).  [expand] is the event log it stands for; the
+   checker below literally evaluates the monitor on the expansion. *)
+Inductive bev :=
+| BEv (e : event)
+| BReads (s : nat) (from len : N)
+| BWrites (d s : nat) (from len : N)
+| BConfs (d s : nat) (from len : N) (ok : bool)
+| BAcks (s : nat) (from len : N).
+
+Definition nseq (from len : N) : list nat := seq (N.to_nat from) (N.to_nat len).
+
+Definition expand1 (b : bev) : list event :=
+  match b with
+  | BEv e => [e]
+  | BReads s f l => map (Read s) (nseq f l)
+  | BWrites d s f l => map (DestWrite d s) (nseq f l)
+  | BConfs d s f l ok => map (fun k => DestConfirm d s k ok) (nseq f l)
+  | BAcks s f l => [EngineAck s (nseq f l)]
+  end.
+
+Definition expand (l : list bev) : list event := flat_map expand1 l.
 
 (* Case: an L-engine run (acceptor + monitor).  SCase: a run of the real lifecycle services, where
    the ack observed is the one the source PLUGIN received: monitors only, the acceptor is an
    engine-level model. *)
-Inductive ecase := Case (t : topo) (log : list event) | SCase (t : topo) (log : list event).
+Inductive ecase :=
+| Case (t : topo) (log : list event)
+| SCase (t : topo) (log : list event)
+(* BCase: a large-batch L-engine run in range form: MONITOR ONLY (the history based acceptor is
+   quadratic in the log with a large constant and is skipped for logs of 10^4 events) *)
+| BCase (t : topo) (l : list bev).
 
 Definition chk01 (c : ecase) : nat :=
   match c with
   | Case t log => code (accepts t log) (Mon_C01 t log)
   | SCase t log => code true (Mon_C01 t log)
+  | BCase t l => code true (Mon_C01 t (expand l))
   end.
 Definition chk04 (c : ecase) : nat :=
   match c with
   | Case t log => code (accepts t log) (Mon_C04 t log)
   | SCase t log => code true (Mon_C04 t log)
+  | BCase t l => code true (Mon_C04 t (expand l))
   end.
 Definition chk05 (c : ecase) : nat :=
   match c with
   | Case t log => code (accepts t log) (Mon_C05 t log)
   | SCase t log => code true (Mon_C05 t log)
+  | BCase t l => code true (Mon_C05 t (expand l))
   end.
